@@ -237,8 +237,9 @@ class GroupBase:
             value = [value] * len(idx)
 
         for mdl, ii, val in zip(models, idx, value):
-            uid = mdl.idx2uid(ii)
-            mdl.__dict__[src].__dict__[attr][uid] = val
+            # through the model's own `set`: it keeps what depends on the value up to date
+            # (time constants held by the DAE, bus status recorded for the connectivity update)
+            mdl.set(src, ii, attr, val)
 
         return True
 
